@@ -243,8 +243,17 @@ def _is_fresh_alloc(v: ast.expr) -> bool:
 
 
 def run(ctx: Context) -> None:
+    base = ctx.prog.find_class("BaseSampler")
+    ctx.rule(r1_grid, base)
+    # R2: snap soundness
+    ctx.rule(c17.r1_r3_get_closest)
+    ctx.rule(c17.r2_digitize)
+    # R3: row-count plumbing
+    ctx.rule(r3_rows, base)
+
+
+def r1_grid(ctx: Context, base: ClassInfo) -> None:
     prog = ctx.prog
-    base = prog.find_class("BaseSampler")
     rule = GridRule(ctx)
     n_ret = 0
     n_bodies = 0
@@ -276,11 +285,6 @@ def run(ctx: Context) -> None:
                 ok, why = rule.expr_is_grid(m, r.value, r)
                 ctx.check(ok, "R1.grid", f"{sub.name}.sample:return", f"{sub.name}.sample (override) returns Grid",
                           f"{sub.name}.sample overrides sample() and returns a non-Grid value: {why}", m, r)
-    # R2: snap soundness
-    c17.r1_r3_get_closest(ctx)
-    c17.r2_digitize(ctx)
-    # R3: row-count plumbing
-    r3_rows(ctx, base)
 
 
 def _passes_zero_dedup(prog, c: ClassInfo) -> bool:
